@@ -80,10 +80,44 @@ def evaluate(i, tier, props):
     return caught
 
 
+def evaluate_wt(i, tier, props):
+    """like evaluate, but in a scratch worktree (VERIF_REPO): does not touch /repo, several can run side by side"""
+    d = os.path.join(ROOT, i)
+    meta = json.load(open(os.path.join(d, 'meta.json')))
+    props = props or [meta['property']]
+    wt = '/tmp/seedchk/ev-' + i
+    evd = wt + '.evidence'
+    subprocess.run(['git', '-C', '/repo', 'worktree', 'remove', '--force', wt], stdout=subprocess.DEVNULL, stderr=subprocess.DEVNULL)
+    os.makedirs('/tmp/seedchk', exist_ok=True)
+    subprocess.check_call(['git', '-C', '/repo', 'worktree', 'add', '-q', '--detach', wt, 'HEAD'])
+    caught = {}
+    try:
+        subprocess.check_call(['git', 'apply', os.path.join(d, 'patch.diff')], cwd=wt)
+        for p in props:
+            os.makedirs(evd, exist_ok=True)
+            r = subprocess.run(['./check', p, tier], cwd='/verif', env=dict(os.environ, VERIF_REPO=wt, VERIF_EVIDENCE_DIR=evd), stdout=subprocess.PIPE, stderr=subprocess.PIPE, text=True)
+            keys = re.findall(r'^VIOLATION property=(\S+) replay=(\S+)', r.stdout, re.M)
+            caught[p] = {'rc': r.returncode, 'violations': [os.path.basename(k[1])[:-5] for k in keys][:6]}
+            if r.returncode in (2, 3):
+                caught[p]['note'] = r.stdout[-600:]
+    finally:
+        subprocess.run(['git', '-C', '/repo', 'worktree', 'remove', '--force', wt], stdout=subprocess.DEVNULL, stderr=subprocess.DEVNULL)
+        shutil.rmtree(evd, ignore_errors=True)
+    print(i, json.dumps(caught))
+    ev = meta.setdefault('evaluated', {})
+    for p, r in caught.items():
+        ev[p] = {'tier': tier, 'verdict': {0: 'missed', 1: 'caught', 2: 'broken', 3: 'inconclusive'}.get(r['rc'], 'rc%d' % r['rc']), 'violations': r['violations']}
+    meta['what_was_run'] = 'lib/seeded.py confirm (scratch worktree: go build, existing suite, demo with/without patch); lib/seeded.py eval / evalwt (patch applied to /repo resp. to a scratch worktree given to the driver as VERIF_REPO; ./check <prop> <tier>; undone / removed afterwards)'
+    json.dump(meta, open(os.path.join(d, 'meta.json'), 'w'), indent=1)
+    return caught
+
+
 if __name__ == '__main__':
     cmd, i = sys.argv[1], sys.argv[2]
     if cmd == 'confirm':
         confirm(i)
+    elif cmd == 'evalwt':
+        evaluate_wt(i, sys.argv[3] if len(sys.argv) > 3 else 'quick', sys.argv[4:])
     else:
         tier = sys.argv[3] if len(sys.argv) > 3 else 'quick'
         evaluate(i, tier, sys.argv[4:])
